@@ -36,7 +36,7 @@ Definition is_term_ev (k : Z) : bool := negb (k =? 0).
 (* exceptions escaping the API *)
 Definition X_ASSERT : Z := 100.   (* AssertionError: connect() on a server / twice *)
 Definition X_TYPE : Z := 101.     (* TypeError: comparison with _close_at = None *)
-Definition X_INDEX : Z := 102.    (* IndexError: _network_paths[0] with no path *)
+Definition X_INDEX : Z := 102.    (* IndexError: _network_paths[0] with no path -- no longer raised since fix ed82a68 *)
 
 Record conn := mkConn {
   c_client : bool;              (* _is_client *)
@@ -180,7 +180,8 @@ Definition receive (now idle0 : Z) (ps : list pkt) (c : conn) : conn :=
 Inductive sent := SNone | SData | SClose.
 
 Definition send (now pto3 : Z) (produced : bool) (nev : Z) (c : conn) : Res (sent * conn) :=
-  if negb (c_has_path c) then Err X_INDEX else
+  (* `if self._state in END_STATES or not self._network_paths: return []` (fix ed82a68; before: IndexError) *)
+  if negb (c_has_path c) then Ok (SNone, c) else
   if is_end (c_state c) then Ok (SNone, c) else
   if c_close_pending c then
     Ok (if produced then SClose else SNone, close_begin true now pto3 (set_pending false c))
